@@ -535,6 +535,98 @@ impl<'a> MslV<'a> {
         }
     }
 
+    /// a constant expression as far as list-initialisation is concerned: a literal or a file-scope constant (`constant T c
+    /// = …;` is const-qualified), possibly signed / parenthesised / cast
+    fn is_constant_clause(&self, e: &Sx, fr: &Frame) -> bool {
+        match e.head() {
+            "lit" => true,
+            "id" => {
+                let name = e.args()[0].atom();
+                !fr.vars.contains_key(name) && self.this_member(name, fr).is_none() && self.const_index(name, fr).is_some()
+            }
+            "un" => matches!(e.args()[0].atom(), "Minus" | "Plus") && self.is_constant_clause(&e.args()[1], fr),
+            "cast" => self.is_constant_clause(&e.args()[1], fr),
+            _ => false,
+        }
+    }
+
+    /// one initializer-clause `e` for a non-aggregate object of type `t` inside braces (C++14 [dcl.init.list]): copy-initialisation
+    /// in which a NARROWING conversion is ill-formed — floating → integer always; integer → floating and integer → an integer
+    /// type that cannot hold every value of the source, unless the clause is a constant whose value fits
+    fn list_init_clause(&self, t: &MTy, e: &Sx, fr: &mut Frame, mem: &mut Mem, cx: &Cx, depth: u32) -> Option<VV> {
+        let from = self.type_of(e, fr, cx)?;
+        let v = self.eval(e, fr, mem, cx, depth)?;
+        if !self.hlsl_literals {
+            if let (Some(MTy::S(f)), MTy::S(k)) = (self.arith(&from), t) {
+                let k = *k;
+                let constant = self.is_constant_clause(e, fr);
+                let fits = || -> bool {
+                    // the value survives the round trip
+                    match v.scalar().and_then(|x| convert_scalar(f, k, x)).and_then(|y| convert_scalar(k, f, y)) {
+                        Some(back) => Some(back) == v.scalar(),
+                        None => false,
+                    }
+                };
+                let narrowing = match (f, k) {
+                    (a, b) if a == b => false,
+                    (MS::Float, _) => true,
+                    (_, MS::Float) => !(constant && fits()),
+                    (MS::Bool, _) => false,
+                    (MS::Int, MS::Long) | (MS::Uint, MS::Long) => false,
+                    _ => !(constant && fits()),
+                };
+                if narrowing && matches!(t, MTy::S(_)) && matches!(from, MTy::S(_) | MTy::Enum(_)) {
+                    return stuck(Stuck::Class(C_NARROWING), format!("{} {} cannot be narrowed to {} inside braces", from.show(), e.show(), t.show()));
+                }
+            }
+        }
+        self.implicit(&from, t, v)
+    }
+
+    /// members / elements of an aggregate taken from `items[*pos..]` with brace elision (C++14 [dcl.init.aggr]): a nested
+    /// `{…}` or an expression of the member's own type initialises a sub-aggregate as a whole, otherwise the sub-aggregate
+    /// takes as many of the following clauses as it has elements; a non-aggregate (scalar, vector, matrix, enum) takes one
+    fn init_elided(&self, t: &MTy, items: &[Sx], pos: &mut usize, fr: &mut Frame, mem: &mut Mem, cx: &Cx, depth: u32) -> Option<VV> {
+        let subs: Option<Vec<MTy>> = match t {
+            MTy::Struct(k) => Some(self.structs.get(k)?.members.iter().map(|m| m.1.clone()).collect()),
+            MTy::Arr(e, n) => Some(vec![(**e).clone(); *n]),
+            _ => None,
+        };
+        match subs {
+            None => {
+                let it = match items.get(*pos) {
+                    Some(it) => it,
+                    // fewer clauses than elements: the rest is value-initialised (zero)
+                    None => return self.zero(t),
+                };
+                *pos += 1;
+                if it.head() == "agg" {
+                    self.init_value(t, it, fr, mem, cx, depth)
+                } else {
+                    self.list_init_clause(t, it, fr, mem, cx, depth)
+                }
+            }
+            Some(subs) => {
+                let mut xs = Vec::new();
+                for mt in &subs {
+                    let whole = match items.get(*pos) {
+                        Some(it) if it.head() == "agg" => true,
+                        Some(it) if matches!(mt, MTy::Struct(_) | MTy::Arr(..)) => &self.type_of(it, fr, cx)? == mt,
+                        _ => false,
+                    };
+                    if whole && matches!(mt, MTy::Struct(_) | MTy::Arr(..)) {
+                        let it = &items[*pos];
+                        *pos += 1;
+                        xs.push(self.init_value(mt, it, fr, mem, cx, depth)?);
+                    } else {
+                        xs.push(self.init_elided(mt, items, pos, fr, mem, cx, depth)?);
+                    }
+                }
+                Some(if matches!(t, MTy::Struct(_)) { VV::St(xs) } else { VV::Ar(xs) })
+            }
+        }
+    }
+
     /// value of an initialiser for an object of type `t`
     pub fn init_value(&self, t: &MTy, i: &Sx, fr: &mut Frame, mem: &mut Mem, cx: &Cx, depth: u32) -> Option<VV> {
         if i.head() != "agg" {
@@ -549,25 +641,21 @@ impl<'a> MslV<'a> {
                 }
                 Some(VV::V(xs))
             }
-            MTy::Arr(e, n) if items.len() == *n => {
-                let mut xs = Vec::new();
-                for it in items {
-                    xs.push(self.init_value(e, it, fr, mem, cx, depth)?);
+            MTy::Arr(..) | MTy::Struct(_) => {
+                let mut pos = 0;
+                let v = self.init_elided(t, items, &mut pos, fr, mem, cx, depth)?;
+                if pos != items.len() {
+                    return other(format!("aggregate with more initialisers ({}) than {} has elements ({})", items.len(), t.show(), pos));
                 }
-                Some(VV::Ar(xs))
+                Some(v)
             }
-            MTy::Struct(k) => {
-                let members: Vec<MTy> = self.structs.get(k)?.members.iter().map(|m| m.1.clone()).collect();
-                if members.len() != items.len() {
-                    return other("aggregate with another number of items than members (brace elision is not modelled)".into());
+            MTy::S(_) | MTy::Enum(_) if items.len() == 1 => {
+                if items[0].head() == "agg" {
+                    self.init_value(t, &items[0], fr, mem, cx, depth)
+                } else {
+                    self.list_init_clause(t, &items[0], fr, mem, cx, depth)
                 }
-                let mut xs = Vec::new();
-                for (mt, it) in members.iter().zip(items) {
-                    xs.push(self.init_value(mt, it, fr, mem, cx, depth)?);
-                }
-                Some(VV::St(xs))
             }
-            MTy::S(_) | MTy::Enum(_) if items.len() == 1 => self.init_value(t, &items[0], fr, mem, cx, depth),
             _ => other(format!("aggregate initialiser for {}", t.show())),
         }
     }
